@@ -65,26 +65,40 @@ def drawFreeFrame (t : Float) : Stk Float → Bool
 def relClose (a b : Float) : Bool :=
   a == b || (a - b).abs ≤ 1e-9 * (max a.abs b.abs)
 
+/-- Temperatures the oracle judges: `+0 ≤ T ≤ +∞` (sign bit clear, not NaN). `T = 0` is what a
+cooling factor 0 or underflow leaves behind, `+∞` a legal `t_0`. -/
+def tempLegal (t : Float) : Bool := t.toBits ≤ 0x7FF0000000000000
+
+/-- `+∞` is a legal objective value (infeasible solution); NaN and `−∞` are not (C09). -/
+def objLegal (o : Float) : Bool := o.isFinite || (o.isInf && o > 0.0)
+
+/-- The Metropolis clauses for ONE decision, given which of the two individuals survived
+(`isAcc`: the candidate, `isRej`: the current one; both when they are indistinguishable).
+Comparisons are the numeric IEEE ones (`−0 = +0`, `+∞ ≤ +∞`), so every numeric tie must be
+accepted at every temperature in `[+0, +∞]`; a worse candidate iff `u < exp((cur − cand)/T)` up to
+one ulp of `exp` (at `T = +0` that is `exp(−∞) = 0`: never; at `T = +∞` `exp(−0) = 1`: always);
+where the formula itself is NaN (`∞/∞`) the property is silent. -/
+def decisionHolds (t u : Float) (cand cur : Ind Float) (isAcc isRej : Bool) : Bool × String :=
+  if !(tempLegal t && objLegal cand.obj && objLegal cur.obj) then (true, "-") else
+  if !(isAcc || isRej) then (false, "frame")
+  else if cand.obj ≤ cur.obj then (if isAcc then (true, "-") else (false, "rejected-not-worse"))
+  else
+    let x := (cur.obj - cand.obj) / t
+    if (Float.exp x).isNaN then (true, "-") else
+    let ok := fun (p : Float) => isAcc == decide (u < p)
+    if ok (Float.exp x) || ok (expUp x) || ok (expDown x) then (true, "-")
+    else (false, if isAcc then "accepted-worse" else "rejected-worse")
+
 /-- Property clauses for one acceptance on a well-formed frame, on the implementation's output. -/
 def acceptHolds (t u : Float) (s : Stk Float) (implOut : Sexp) : Bool × String :=
   match s with
   | [cand] :: [cur] :: rest =>
-    -- +inf is a legal objective value (infeasible solution); NaN and -inf are not (C09)
-    let legal := fun (o : Float) => o.isFinite || (o.isInf && o > 0.0)
-    if !(t > 0.0 && t.isFinite && legal cand.obj && legal cur.obj) then (true, "-") else
-    -- the three admissible outputs: candidate survives / current survives
+    -- the admissible outputs: candidate survives / current survives, with 0 or 1 draws
     let outAcc := fun used : Nat => Sexp.list [.atom "ok", stackS ([cand] :: rest), .list [.atom "t", Sexp.ofFloat t], .list [.atom "used", Sexp.ofNat used]]
     let outRej := fun used : Nat => Sexp.list [.atom "ok", stackS ([cur] :: rest), .list [.atom "t", Sexp.ofFloat t], .list [.atom "used", Sexp.ofNat used]]
     let isAcc := Sexp.beq implOut (outAcc 0) || Sexp.beq implOut (outAcc 1)
     let isRej := Sexp.beq implOut (outRej 0) || Sexp.beq implOut (outRej 1)
-    if !(isAcc || isRej) then (false, "frame")
-    else if cand.obj ≤ cur.obj then (if isAcc then (true, "-") else (false, "rejected-not-worse"))
-    else
-      -- worse candidate: accepted ↔ u < exp(−(cand − cur)/T), up to one ulp of `exp`
-      let x := (cur.obj - cand.obj) / t
-      let ok := fun (p : Float) => isAcc == decide (u < p)
-      if ok (Float.exp x) || ok (expUp x) || ok (expDown x) then (true, "-")
-      else (false, if isAcc then "accepted-worse" else "rejected-worse")
+    decisionHolds t u cand cur isAcc isRej
   | _ => (true, "-")
 
 def splitmixNew (seed : UInt64) : UInt64 := (seed * 0x9E3779B97F4A7C15) ^^^ 0xD1B54A32D192ED03
@@ -291,6 +305,76 @@ def coolProgCase (args : List Sexp) (implOut : Sexp) : Option Verdict := do
     let (holds, cls) := coolProgHolds cools cells implOut
     pure { agree := Sexp.beq model implOut, holds, cls, model }
 
+/-! ### sequences of acceptances on one state (`chain`) -/
+
+def indBeq (a b : Ind Float) : Bool := a.tag == b.tag && a.obj.toBits == b.obj.toBits
+
+def step? : Sexp → Option (Step Float × Nat)
+  | .list [tag, o, t, w] => do
+    let w ← w.nat?
+    pure ({ cand := { tag := ← tag.nat?, obj := ← o.float? }, t := ← t.float?, u := unitOfWord w }, w)
+  | _ => none
+
+def traceEntry? : Sexp → Option (Pop Float × Nat)
+  | .list [p, u] => do pure (← pop? p, ← u.nat?)
+  | _ => none
+
+/-- K along the implementation's own trajectory: every step must be what the model's decision
+gives from the survivor the code had before (one ulp of `exp`; draw count free where the decision
+cannot depend on the draw). -/
+def chainAgree : Ind Float → List (Step Float) → List (Pop Float × Nat) → Bool
+  | _, [], [] => true
+  | prev, st :: steps, (p, used) :: tr =>
+    let variant := fun (e : Float → Float) =>
+      let s := if accepts e prev.obj st.cand.obj st.t st.u then st.cand else prev
+      match p with
+      | [x] => indBeq x s
+      | _ => false
+    let usedM := drawsUsed prev.obj st.cand.obj
+    let usedOk := used == usedM || (drawFree prev.obj st.cand.obj st.t && used ≤ 1)
+    (variant Float.exp || variant expUp || variant expDown) && usedOk &&
+      (match p with | [x] => chainAgree x steps tr | _ => false)
+  | _, _, _ => false
+
+/-- O along the implementation's own trajectory: each step is one Metropolis decision between the
+step's candidate and the individual the code itself held as current. -/
+def chainHolds : Ind Float → List (Step Float) → List (Pop Float × Nat) → Bool × String
+  | _, [], _ => (true, "-")
+  | _, _ :: _, [] => (false, "frame")
+  | prev, st :: steps, (p, _) :: tr =>
+    match p with
+    | [x] =>
+      let r := decisionHolds st.t st.u st.cand prev (indBeq x st.cand) (indBeq x prev)
+      if !r.1 then r
+      else if !(indBeq x st.cand || indBeq x prev) then (false, "frame")
+      else chainHolds x steps tr
+    | _ => (false, "frame")
+
+def chainCase (args : List Sexp) (implOut : Sexp) : Option Verdict := do
+  let cur ← (← field "cur" args).head?.bind ind?
+  let rest ← (← field "rest" args).mapM pop?
+  let stepsW ← (← field "steps" args).mapM step?
+  let steps := stepsW.map (·.1)
+  -- the model's own run
+  let (st, s') := acceptChain Float.exp steps ([cur] :: rest)
+  let survivors := (List.range steps.length).map (fun i => chainSurvivor Float.exp cur (steps.take (i + 1)))
+  let prevs := cur :: survivors
+  let mtrace := (List.zip (List.zip prevs steps) survivors).map (fun ((pv, stp), sv) =>
+    Sexp.list [popS [sv], Sexp.ofNat (drawsUsed pv.obj stp.cand.obj)])
+  let model := Sexp.list [statusS st, .list (.atom "trace" :: mtrace), stackS s']
+  match implOut with
+  | .list [.atom status, trS, stackSx] =>
+    let tr ← (← Sexp.tagged? "trace" trS).mapM traceEntry?
+    let last := match tr.getLast? with | some ([x], _) => x | _ => cur
+    let frameOk := status == "ok" && tr.length == steps.length && Sexp.beq stackSx (stackS ([last] :: rest))
+    let agree := frameOk && chainAgree cur steps tr
+    let (h, cls) := chainHolds cur steps tr
+    -- a chain of well-formed frames must end ok with the populations below untouched
+    let allLegal := steps.all (fun s => tempLegal s.t && objLegal s.cand.obj) && objLegal cur.obj
+    let (holds, cls) := if !h then (h, cls) else if allLegal && !frameOk then (false, "frame") else (true, "-")
+    pure { agree, holds, cls, model }
+  | _ => pure { agree := false, holds := false, cls := "frame", model }
+
 def handle (input implOut : Sexp) : Option Verdict := do
   match input with
   | .list (.atom "accept" :: args) =>
@@ -304,6 +388,7 @@ def handle (input implOut : Sexp) : Option Verdict := do
       || (drawFreeFrame t stack && Sexp.beq (acceptOutF true Float.exp t u stack) implOut)
     let (holds, cls) := acceptHolds t u stack implOut
     pure { agree, holds, cls, model }
+  | .list (.atom "chain" :: args) => chainCase args implOut
   | .list (.atom "freq" :: args) => freqCase args implOut
   | .list (.atom "cool" :: args) => coolCase args implOut
   | .list (.atom "coolprog" :: args) => coolProgCase args implOut
